@@ -93,6 +93,7 @@ fn run(args: &Args, o: &mut Out) {
         },
         "idt" => idt::run_idt(&mut o, args.seed, args.n),
         "idt13" => idt::run_idt13(&mut o, args.seed, args.n),
+        "machine" => idt::run_machine(&mut o, args.seed, args.n),
         "consts" => consts::run_consts(&mut o, args.seed, args.n),
         "gdt" => gdt::run_gdt(&mut o, args.seed, args.n),
         "desc" => gdt::run_desc(&mut o, args.seed, args.n),
